@@ -6,7 +6,7 @@ import Goyang.Model.TypesLite
 C13, third sentence — "An included submodule contributes its data nodes, typedefs, groupings and
 identities to the including module exactly as if they were written there."
 
-Setting (Spec/Include.lean).  `IsSplitOf s R R' plug`: the registry `R'` is the registry `R` with one
+Setting (Spec/Include.lean).  `IsSplitOf s R R' plug plug'`: the registry `R'` is the registry `R` with one
 module `s.m` replaced by an owner `s.owner` (same name, header, load number; `include` statements)
 and submodules `s.subs` (belongs-to `m` under `m`'s prefix, `m`'s imports), every body statement of
 `m` (data nodes, rpcs, notifications, uses, groupings) being in exactly one part as the same
@@ -14,11 +14,14 @@ statement; `Visible`: from every part every top-level grouping name of `m` binds
 lookup rules, to the statement `m` declares (the exact visibility condition the model needs — it is
 what the runner's split guarantees by construction, and what the repaired `FindGrouping` gives
 whenever the owner includes every submodule); `PlugSplitOK`: the plugged layers (types C09,
-identities C11, typedefs) answer alike — typedefs and identities are their business; `PosWF`,
+identities C11, typedefs; `plug` for the unsplit, `plug'` for the split registry — the pipeline
+builds its plug from the registry) answer alike — typedefs and identities are their business; `PosWF`,
 `RefsWF`, `LookupFuelOK`: positions identify groupings, prefixed references are well formed (C06),
-the model's lookup fuel suffices (executable checkers: Lemmas/IncludeCheck.lean).  This round:
-`R` itself has no submodules, one level of include (the submodules see each other through the
-owner: `Visible`).
+the model's lookup fuel suffices (executable checkers: Lemmas/IncludeCheck.lean).  The parts may
+include each other in any way (nested includes) as long as every submodule is reached from the
+owner and no part includes itself or is included back by a part it includes (`RegsOK.inc_cover`,
+`inc_no_back`: exactly what goyang's circularity test asks).  This round: `R` itself has no
+submodules (the runner's setting).
 
 What is proved, for all such registries, every option set and plug:
 
@@ -52,15 +55,15 @@ from the unsplit to the split set; every module other than the split one has the
 `ren σ` (module numbers of nodes that now live in a submodule's text); the owner's tree is the
 unsplit module's: same data but for the statement object, the same children — each equal up to
 `ren σ` — in another order, no rpc input/output. -/
-theorem include_conversion (s : Split) (R R' : Registry) (opts : Opts) (plug : Plug) (h : IsSplitOf s R R' plug)
+theorem include_conversion (s : Split) (R R' : Registry) (opts : Opts) (plug plug' : Plug) (h : IsSplitOf s R R' plug plug')
     (hlink : (linkAll R).2 = []) (hclean : forestErrs (forest0 R opts plug) = []) :
-    forestErrs (forest0 R' opts plug) = [] ∧
+    forestErrs (forest0 R' opts plug') = [] ∧
     (∀ x ∈ R.mods, x.seq ≠ s.m.seq → ∀ t, (forest0 R opts plug).tree? x.seq = some t →
-      ∃ t', (forest0 R' opts plug).tree? x.seq = some t' ∧ ren s.σ t' = t) ∧
+      ∃ t', (forest0 R' opts plug').tree? x.seq = some t' ∧ ren s.σ t' = t) ∧
     (∃ t, (forest0 R opts plug).tree? s.m.seq = some t) ∧
     (∀ t, (forest0 R opts plug).tree? s.m.seq = some t →
-      ∃ t', (forest0 R' opts plug).tree? s.m.seq = some t' ∧ SameTop s.σ t' t) :=
-  conv_split opts plug h hlink hclean
+      ∃ t', (forest0 R' opts plug').tree? s.m.seq = some t' ∧ SameTop s.σ t' t) :=
+  conv_split opts plug plug' h hlink hclean
 
 /-! ### `Modules.Process` -/
 
@@ -71,8 +74,7 @@ and equal canonical dumps (children in name order at every level; kind, config, 
 constraints, namespace, read-only, instantiating module) of the split module.
 
 Proved below: `include_eq_inline_noaug` (this very statement), `include_eq_inline_partial` +
-`include_paths` (no augment/deviation statements in the set; `R` without submodules; one level of
-include) and `include_conversion` (conversion stage, augments and deviations allowed).  Missing for
+`include_paths` (no augment/deviation statements in the set; `R` without submodules) and `include_conversion` (conversion stage, augments and deviations allowed).  Missing for
 the full statement: (1) the augment loop of `Process`
 visits the trees in an order that the additional (augment-free) submodule trees change (swap-remove
 over the module array), so children grafted by different modules into one node can arrive in
@@ -83,45 +85,45 @@ over the augment loop on two forests has not been done; (3) nested includes amon
 (nested includes among the parts ARE covered: `parts_merge_each_submodule_once`); (4) other modules of `R` with submodules
 of their own (their include steps run in lockstep in both registries; not done).  The metamorphic
 runner harness/cmd/corr-c13c checks the full statement on both sides. -/
-def IncludeEqInline (s : Split) (R R' : Registry) (opts : Opts) (plug : Plug) : Prop :=
+def IncludeEqInline (s : Split) (R R' : Registry) (opts : Opts) (plug plug' : Plug) : Prop :=
   (processAll R opts plug).errors = [] →
-    (processAll R' opts plug).errors = [] ∧
-    dumpOf (processAll R' opts plug) s.owner = dumpOf (processAll R opts plug) s.m
+    (processAll R' opts plug').errors = [] ∧
+    dumpOf (processAll R' opts plug') s.owner = dumpOf (processAll R opts plug) s.m
 
 /-- **include_eq_inline_partial.**  No augment or deviation statement in the loaded set: a clean
 `Process` of the unsplit set implies a clean `Process` of the split set; every other module keeps its
 tree (up to `ren σ`); the owner's tree is the unsplit module's tree with the children of the root
 in another order (`SameTop`: same data but for the statement object, the same children up to
 `ren σ`). -/
-theorem include_eq_inline_partial (s : Split) (R R' : Registry) (opts : Opts) (plug : Plug)
-    (h : IsSplitOf s R R' plug) (hna : NoAugDev R) (hclean : (processAll R opts plug).errors = []) :
-    (processAll R' opts plug).errors = [] ∧
+theorem include_eq_inline_partial (s : Split) (R R' : Registry) (opts : Opts) (plug plug' : Plug)
+    (h : IsSplitOf s R R' plug plug') (hna : NoAugDev R) (hclean : (processAll R opts plug).errors = []) :
+    (processAll R' opts plug').errors = [] ∧
     (∀ x ∈ R.mods, x.seq ≠ s.m.seq → ∀ t, (processAll R opts plug).forest.tree? x.seq = some t →
-      ∃ t', (processAll R' opts plug).forest.tree? x.seq = some t' ∧ ren s.σ t' = t) ∧
+      ∃ t', (processAll R' opts plug').forest.tree? x.seq = some t' ∧ ren s.σ t' = t) ∧
     (∃ t, (processAll R opts plug).forest.tree? s.m.seq = some t) ∧
     (∀ t, (processAll R opts plug).forest.tree? s.m.seq = some t →
-      ∃ t', (processAll R' opts plug).forest.tree? s.m.seq = some t' ∧ SameTop s.σ t' t) :=
-  process_split opts plug h hna hclean
+      ∃ t', (processAll R' opts plug').forest.tree? s.m.seq = some t' ∧ SameTop s.σ t' t) :=
+  process_split opts plug plug' h hna hclean
 
 /-- **include_paths.**  In the same setting, at every path into the module's tree: the same namespace (`namespaceAt`), the same read-only status (`readOnlyAt`), and
 below the root the same subtree — every node with all its data, children in the same order — up to
 `ren σ`. -/
-theorem include_paths (s : Split) (R R' : Registry) (opts : Opts) (plug : Plug)
-    (h : IsSplitOf s R R' plug) (hna : NoAugDev R) (hclean : (processAll R opts plug).errors = [])
+theorem include_paths (s : Split) (R R' : Registry) (opts : Opts) (plug plug' : Plug)
+    (h : IsSplitOf s R R' plug plug') (hna : NoAugDev R) (hclean : (processAll R opts plug).errors = [])
     (p : Path) :
-    namespaceAt R' (processAll R' opts plug).forest (s.m.seq, p) = namespaceAt R (processAll R opts plug).forest (s.m.seq, p) ∧
-    ∀ t' t, (processAll R' opts plug).forest.tree? s.m.seq = some t' → (processAll R opts plug).forest.tree? s.m.seq = some t →
+    namespaceAt R' (processAll R' opts plug').forest (s.m.seq, p) = namespaceAt R (processAll R opts plug).forest (s.m.seq, p) ∧
+    ∀ t' t, (processAll R' opts plug').forest.tree? s.m.seq = some t' → (processAll R opts plug).forest.tree? s.m.seq = some t →
       t'.readOnlyAt p = t.readOnlyAt p ∧ (p ≠ [] → (t'.getAt p).map (ren s.σ) = t.getAt p) :=
-  process_split_paths opts plug h hna hclean p
+  process_split_paths opts plug plug' h hna hclean p
 
 
 /-- **include_eq_inline_noaug.**  The full statement for sets without augment and deviation
 statements: the canonical dump of the owner's tree (every node in name order with kind, config,
 mandatory, defaults, units, key, list attributes, type, read-only, namespace, instantiating module,
 path) is the dump of the unsplit module's tree. -/
-theorem include_eq_inline_noaug (s : Split) (R R' : Registry) (opts : Opts) (plug : Plug)
-    (h : IsSplitOf s R R' plug) (hna : NoAugDev R) : IncludeEqInline s R R' opts plug :=
-  fun hclean => ⟨(process_split opts plug h hna hclean).1, Lemmas.IncludeDump.dumpOf_split opts plug h hna hclean⟩
+theorem include_eq_inline_noaug (s : Split) (R R' : Registry) (opts : Opts) (plug plug' : Plug)
+    (h : IsSplitOf s R R' plug plug') (hna : NoAugDev R) : IncludeEqInline s R R' opts plug plug' :=
+  fun hclean => ⟨(process_split opts plug plug' h hna hclean).1, Lemmas.IncludeDump.dumpOf_split opts plug plug' h hna hclean⟩
 
 /-- **visible_when_grouping_names_distinct.**  The visibility condition is automatic when the
 top-level grouping names of `m` are pairwise distinct (RFC 7950 requires it; goyang does not check):
@@ -132,6 +134,20 @@ theorem visible_when_grouping_names_distinct (s : Split) (R R' : Registry) (ht :
     Visible s R' (linkAll R').1 :=
   Lemmas.IncludeVisibleN.visible_of_nodupN s R R' _ _ ht hr (Lemmas.IncludeLinkN.linkAll_splitN s R R' ht hr hlink).2 hnd
 
+/-- **(d) what is needed of the plug**, discharged for the placeholder type layer (`typesLite`: the
+written type name) with identity and typedef stages that report nothing.  For the full plug
+(`Pipeline.plugFull R`, `plugFull R'`) the four clauses of `PlugSplitOK` are the obligations of the
+type, identity and typedef layers: typedef lookup from a part must find what the lookup from `m`
+finds (the analogue of `Visible` for typedefs), identities and typedefs of the parts must be
+collected as if written in `m`. -/
+theorem plugSplitOK_lite (s : Split) (R R' : Registry) (plug plug' : Plug)
+    (h1 : plug.tres = typesLite) (h1' : plug'.tres = typesLite)
+    (h2 : plug'.identityErrs R' = []) (h3 : plug'.typedefErrs R' = []) : PlugSplitOK s R R' plug plug' where
+  identity := fun _ => h2
+  typedefs := fun _ => h3
+  types_part := fun _ _ _ _ => by rw [h1, h1']; rfl
+  types_other := fun _ _ _ _ _ => by rw [h1, h1']; rfl
+
 /-! ### the stages -/
 
 /-- **(a) context_independence.**  The conversion of a statement depends on the (sub)module it is
@@ -140,30 +156,30 @@ conversion of `n` below `inner` in the unsplit module `m` is error free — from
 any fuel that leaves the slack, any set of statements in progress that the value of `n` does not
 depend on — then the conversion of the same `n` below the same `inner` in a part `P` of the split
 set, again from any coherent state etc., gives the same entry up to `ren σ`. -/
-theorem context_independence (s : Split) (R R' : Registry) (opts : Opts) (plug : Plug) (h : IsSplitOf s R R' plug)
+theorem context_independence (s : Split) (R R' : Registry) (opts : Opts) (plug plug' : Plug) (h : IsSplitOf s R R' plug plug')
     (hlink : (linkAll R).2 = []) (P : Mod) (hP : P ∈ s.parts) (inner : List Stmt) (n : Stmt)
     (hn : isModKw n = false) (hch : Chain s.m.stmt (n :: (inner ++ [s.m.stmt]))) (hch' : Chain P.stmt (n :: (inner ++ [P.stmt])))
     (f f' : Nat) (vis vis' : List NodeId) (st st' : TState)
     (hf : Fuel.need R s.m n vis + lookupSlack R ≤ f) (hf' : Fuel.need R' P n vis' + lookupSlack R' ≤ f')
-    (hcoh : Coh (IncludeWorld.Wu R opts plug) st.gcache) (hcoh' : Coh (IncludeWorld.Ws s R R' opts plug) st'.gcache)
+    (hcoh : Coh (IncludeWorld.Wu R opts plug) st.gcache) (hcoh' : Coh (IncludeWorld.Ws s R R' opts plug plug') st'.gcache)
     (hv : Harmless (IncludeWorld.Wu R opts plug) vis (s.m, inner ++ [s.m.stmt], n))
-    (hv' : Harmless (IncludeWorld.Ws s R R' opts plug) vis' (s.m, inner ++ [s.m.stmt], n))
+    (hv' : Harmless (IncludeWorld.Ws s R R' opts plug plug') vis' (s.m, inner ++ [s.m.stmt], n))
     (hclean : Clean (toEntry (envOf R opts plug) f s.m (inner ++ [s.m.stmt]) n vis st).1) :
-    ren s.σ (toEntry (envOf R' opts plug) f' P (inner ++ [P.stmt]) n vis' st').1 =
+    ren s.σ (toEntry (envOf R' opts plug') f' P (inner ++ [P.stmt]) n vis' st').1 =
       (toEntry (envOf R opts plug) f s.m (inner ++ [s.m.stmt]) n vis st).1 := by
-  have hu := (run_val (IncludeWorld.Wu R opts plug) (wu_ok opts plug h) f s.m (inner ++ [s.m.stmt]) n vis st s.m
+  have hu := (run_val (IncludeWorld.Wu R opts plug) (wu_ok opts plug plug' h) f s.m (inner ++ [s.m.stmt]) n vis st s.m
     (inner ++ [s.m.stmt]) ⟨rfl, rfl⟩ ⟨h.regs.m_mem, hch⟩ hn hf hcoh hv).1
-  have hs := (run_val (IncludeWorld.Ws s R R' opts plug) (ws_ok opts plug h hlink) f' P (inner ++ [P.stmt]) n vis' st' s.m
+  have hs := (run_val (IncludeWorld.Ws s R R' opts plug plug') (ws_ok opts plug plug' h hlink) f' P (inner ++ [P.stmt]) n vis' st' s.m
     (inner ++ [s.m.stmt]) (Or.inl ⟨hP, rfl, inner, rfl, rfl⟩) ⟨IncludeWorld.part_mem' h.regs hP, hch'⟩ hn hf' hcoh' hv').1
   have h1 : ren id (toEntry (envOf R opts plug) f s.m (inner ++ [s.m.stmt]) n vis st).1 =
       (IncludeWorld.Wu R opts plug).val s.m (inner ++ [s.m.stmt]) n := hu.1 hclean
   rw [ren_id] at h1
-  have hc : Clean ((IncludeWorld.Ws s R R' opts plug).val s.m (inner ++ [s.m.stmt]) n) := by
-    have : (IncludeWorld.Ws s R R' opts plug).val s.m (inner ++ [s.m.stmt]) n =
+  have hc : Clean ((IncludeWorld.Ws s R R' opts plug plug').val s.m (inner ++ [s.m.stmt]) n) := by
+    have : (IncludeWorld.Ws s R R' opts plug plug').val s.m (inner ++ [s.m.stmt]) n =
         (IncludeWorld.Wu R opts plug).val s.m (inner ++ [s.m.stmt]) n := rfl
     rw [this, ← h1]; exact hclean
-  have h2 : ren s.σ (toEntry (envOf R' opts plug) f' P (inner ++ [P.stmt]) n vis' st').1 =
-      (IncludeWorld.Ws s R R' opts plug).val s.m (inner ++ [s.m.stmt]) n := hs.2 hc
+  have h2 : ren s.σ (toEntry (envOf R' opts plug') f' P (inner ++ [P.stmt]) n vis' st').1 =
+      (IncludeWorld.Ws s R R' opts plug plug').val s.m (inner ++ [s.m.stmt]) n := hs.2 hc
   rw [h2, h1]
   rfl
 
@@ -190,10 +206,10 @@ include each other — goyang's circularity error is never raised); then `P`'s r
 Afterwards the state agrees with the started names of the mirror (`PGoal.inv`), `P` is in the module
 cache (`self`), every newly started submodule is in the module cache (`newc`) with an entry that is
 a value of the mirror (`cache`).  `PStmt`/`PGoal`: Lemmas/IncludeModN.lean. -/
-theorem parts_merge_each_submodule_once (s : Split) (R R' : Registry) (opts : Opts) (plug : Plug)
-    (h : IsSplitOf s R R' plug) (hlink : (linkAll R).2 = []) (f : Nat) : Lemmas.IncludeModN.PStmt s R R' opts plug f :=
-  Lemmas.IncludeModN.part_conv opts plug h.text h.regs
-    (Lemmas.IncludeLinkN.linkAll_splitN s R R' h.text h.regs hlink).2 (ws_ok opts plug h hlink) f
+theorem parts_merge_each_submodule_once (s : Split) (R R' : Registry) (opts : Opts) (plug plug' : Plug)
+    (h : IsSplitOf s R R' plug plug') (hlink : (linkAll R).2 = []) (f : Nat) : Lemmas.IncludeModN.PStmt s R R' opts plug plug' f :=
+  Lemmas.IncludeModN.part_conv opts plug plug' h.text h.regs
+    (Lemmas.IncludeLinkN.linkAll_splitN s R R' h.text h.regs hlink).2 (ws_ok opts plug plug' h hlink) f
 
 /-! ### non-vacuity: a module with two containers and a grouping, split into two submodules
 
@@ -357,13 +373,13 @@ theorem visible : Visible sp R' (linkAll R').1 := by
   subst h2
   rcases h1 with rfl | rfl | rfl <;> exact ⟨s2, by simp [sp, Split.parts], rfl⟩
 
-theorem plugOK : PlugSplitOK sp R R' plug where
+theorem plugOK : PlugSplitOK sp R R' plug plug where
   identity := fun _ => rfl
   typedefs := fun _ => rfl
   types_part := fun _ _ _ _ => rfl
   types_other := fun _ _ _ _ _ => rfl
 
-theorem isSplit : IsSplitOf sp R R' plug where
+theorem isSplit : IsSplitOf sp R R' plug plug where
   text := textOK
   regs := regsOK
   visible := visible
@@ -394,18 +410,18 @@ theorem split_result :
     (processAll R' {} plug).errors = [] ∧
     ∃ t t', (processAll R {} plug).forest.tree? 0 = some t ∧ (processAll R' {} plug).forest.tree? 0 = some t' ∧
       SameTop sp.σ t' t := by
-  obtain ⟨h1, _, ⟨t, ht⟩, h4⟩ := include_eq_inline_partial sp R R' {} plug isSplit noAugDev unsplit_clean
+  obtain ⟨h1, _, ⟨t, ht⟩, h4⟩ := include_eq_inline_partial sp R R' {} plug plug isSplit noAugDev unsplit_clean
   obtain ⟨t', ht', hst⟩ := h4 t ht
   exact ⟨h1, t, t', ht, ht', hst⟩
 
 /-- The canonical dumps of the two results are equal. -/
 theorem split_dump : dumpOf (processAll R' {} plug) o = dumpOf (processAll R {} plug) m :=
-  (include_eq_inline_noaug sp R R' {} plug isSplit noAugDev unsplit_clean).2
+  (include_eq_inline_noaug sp R R' {} plug plug isSplit noAugDev unsplit_clean).2
 
 /-- … and at the path `/m/c1/x` (the leaf that came through `uses g`, written in `s2`, used in `s1`):
 same namespace, same read-only status, same node. -/
 example : namespaceAt R' (processAll R' {} plug).forest (0, [.child "c1", .child "x"]) = "urn:m" := by
-  have := (include_paths sp R R' {} plug isSplit noAugDev unsplit_clean [.child "c1", .child "x"]).1
+  have := (include_paths sp R R' {} plug plug isSplit noAugDev unsplit_clean [.child "c1", .child "x"]).1
   have h0 : sp.m.seq = 0 := rfl
   rw [h0] at this
   rw [this]
@@ -560,7 +576,7 @@ theorem visible2 : Visible sp2 R2 (linkAll R2).1 := by
   subst h2
   rcases mem_parts2 hP with rfl | rfl | rfl <;> exact ⟨s2, by simp [sp2, Split.parts], rfl⟩
 
-theorem isSplit2 : IsSplitOf sp2 R R2 plug where
+theorem isSplit2 : IsSplitOf sp2 R R2 plug plug where
   text := textOK2
   regs := regsOK2
   visible := visible2
@@ -575,7 +591,7 @@ theorem isSplit2 : IsSplitOf sp2 R R2 plug where
 /-- The nested split processes without errors and gives the same dump. -/
 theorem nested_result :
     (processAll R2 {} plug).errors = [] ∧ dumpOf (processAll R2 {} plug) o = dumpOf (processAll R {} plug) m :=
-  include_eq_inline_noaug sp2 R R2 {} plug isSplit2 noAugDev unsplit_clean
+  include_eq_inline_noaug sp2 R R2 {} plug plug isSplit2 noAugDev unsplit_clean
 end Ex2
 
 end Goyang.Props.C13Include
